@@ -427,7 +427,91 @@ def french():
     print(c + ":", len(arms), "arms,", len(rows), "rows,", len(allwords), "words")
 
 
-LANGS = {"en": english, "es": spanish, "fr": french}
+# ------------------------------------------------------------------ Portuguese
+def portuguese():
+    c = "pt"
+    arms = load_arms(c)
+    emit_model(c, arms, "arm-level model of Portuguese::apply: the match on the lemma -> (outcome, restrictions for the next word) (layer L3a)",
+               extra_params=", only_multipliers: bool, smaller_blocked: bool", ret="(ApRes, u64)", default="(err_res(o, Error::NaN), 0u64)")
+    rows = []
+
+    def add(w, cls, digits, mk, desc=None):
+        rows.append({"word": w, "cls": cls, "digits": digits, "marker": mk, "expect": digits + (mk or ""), "desc": desc or f"{cls} {digits}" + (f", marker `{mk}`" if mk else "")})
+    add("zero", "zero", "0", None)
+    units = {"um": "1", "dois": "2", "duas": "2", "três": "3", "quatro": "4", "cinco": "5", "seis": "6", "sete": "7", "oito": "8", "nove": "9"}
+    for w, d in units.items():
+        add(w, "unit", d, None)
+    teens = {"dez": "10", "onze": "11", "doze": "12", "treze": "13", "catorze": "14", "quatorze": "14", "quinze": "15", "dezasseis": "16", "dezesseis": "16",
+             "dezassete": "17", "dezessete": "17", "dezoito": "18", "dezanove": "19", "dezenove": "19", "vinte": "20", "trinta": "30", "quarenta": "40",
+             "cinquenta": "50", "sessenta": "60", "setenta": "70", "oitenta": "80", "noventa": "90"}
+    for w, d in teens.items():
+        add(w, "small", d, None)
+    add("cem", "cem", "100", None)
+    hundreds = {"cento": "100", "duzentos": "200", "duzentas": "200", "trezentos": "300", "trezentas": "300", "quatrocentos": "400", "quatrocentas": "400",
+                "quinhentos": "500", "quinhentas": "500", "seiscentos": "600", "seiscentas": "600", "setecentos": "700", "setecentas": "700",
+                "oitocentos": "800", "oitocentas": "800", "novecentos": "900", "novecentas": "900"}
+    for w, d in hundreds.items():
+        add(w, "hundred", d, None)
+    ords = {"primeiro": ("ordunit", "1"), "segundo": ("ordunit", "2"), "terceiro": ("ordunit", "3"), "quarto": ("ordunit", "4"), "quinto": ("ordunit", "5"),
+            "sexto": ("ordunit", "6"), "sétimo": ("ordunit", "7"), "oitavo": ("ordunit", "8"), "nono": ("ordnono", "9"), "décimo": ("small", "10"),
+            "vigésimo": ("small", "20"), "trigésimo": ("small", "30"), "quadragésimo": ("small", "40"), "quinquagésimo": ("small", "50"),
+            "sexagésimo": ("small", "60"), "septuagésimo": ("small", "70"), "octogésimo": ("small", "80"), "nonagésimo": ("small", "90"),
+            "centésimo": ("hundred", "100"), "ducentésimo": ("hundred", "200"), "trecentésimo": ("hundred", "300"), "quadringentésimo": ("hundred", "400"),
+            "quingentésimo": ("hundred", "500"), "sexcentésimo": ("hundred", "600"), "septingentésimo": ("hundred", "700"), "octingentésimo": ("hundred", "800"),
+            "noningentésimo": ("hundred", "900")}
+    for w, (cls, d) in ords.items():
+        add(w, cls, d, "º")
+        add(w[:-1] + "a", cls, d, "ª")
+        add(w + "s", cls, d, "ᵒˢ")
+        add(w[:-1] + "as", cls, d, "ᵃˢ")
+    rows.append({"word": ",", "cls": "comma", "digits": "", "marker": None, "expect": None, "desc": "a comma is never a number word (it ends the number in progress)"})
+
+    def strip_all(w, sfx):
+        while sfx and w.endswith(sfx):
+            w = w[:-len(sfx)]
+        return w
+
+    def lemma_of(w):
+        if w.endswith("a"):
+            return w.rstrip("a")
+        if w.endswith("as") and w != "duas":
+            return strip_all(w, "as")
+        if w.endswith("o") and w != "zero":
+            return w.rstrip("o")
+        if w.endswith("os"):
+            return strip_all(w, "os")
+        return w
+
+    def marker_kind(w):
+        prob = 1 if w.endswith("a") else 2 if w.endswith("as") else 3 if w.endswith("o") else 4 if w.endswith("os") else 0
+        l = lemma_of(w)
+        stem = l in ("primeir", "segund", "terceir", "quart", "quint", "sext", "sétim", "oitav", "non") or l.endswith("im")
+        return prob if (prob and stem) else 0
+    WANT = {None: 0, "ª": 1, "ᵃˢ": 2, "º": 3, "ᵒˢ": 4}
+
+    def word_facts(r):
+        w = r["word"]
+        l = lemma_of(w)
+        k = marker_kind(w)
+        ens = f"pt_lemma({W(w)}) == {W(l)}, pt_marker_kind({W(w)}) == {k}"
+        asserts = [f"assert(pt_lemma({W(w)}) =~= {W(l)}) by(compute_only);", f"assert(pt_marker_kind({W(w)}) == {k}) by(compute_only);"]
+        return ens, asserts, l
+
+    def row_stmt(r):
+        if r["word"] == ",":
+            return f"!pt_model({W(',')}, o).ok && !(pt_model({W(',')}, o).err is Incomplete)"
+        cls = {"zero": 0, "unit": 1, "small": 2, "cem": 3, "hundred": 4, "ordunit": 5, "ordnono": 6}[r["cls"]]
+        return f"pt_row({digs(r['digits'])}, {WANT[r['marker']]}, {cls}, o, pt_model({W(r['word'])}, o))"
+    extra = ["as", "os", "duas", "zero", "im", "primeir", "segund", "terceir", "quart", "quint", "sext", "sétim", "oitav", "non", "vírgula", ""]
+    allwords = set(w for ws, _, _ in arms for w in ws) | set(r["word"] for r in rows) | set(lemma_of(r["word"]) for r in rows) | set(extra)
+    ARMS_CURRENT[:] = arms
+    inner = emit_rows(c, rows, word_facts, row_stmt)
+    emit_words(c, allwords, inner, arms)
+    json.dump(rows, open(os.path.join(T, f"{c}_rows.json"), "w", encoding="utf-8"), ensure_ascii=False)
+    print(c + ":", len(arms), "arms,", len(rows), "rows,", len(allwords), "words")
+
+
+LANGS = {"en": english, "es": spanish, "fr": french, "pt": portuguese}
 
 if __name__ == "__main__":
     emit_wcode()
